@@ -168,7 +168,7 @@ fn run_case(c: &Value) -> Value {
             let mut leaves = vec![];
             for l in c["leaves"].as_array().unwrap() {
                 let path = from_cps(&l["path"]);
-                let probes = [json!({"s": [120]}), json!({"i": 1}), json!({"b": true}), json!({"z": 0})];
+                let probes: Vec<Value> = c["probes"].as_array().expect("probes").clone();
                 let is: Vec<Value> = probes.iter().filter(|p| PushCondition::EventPropertyIs { key: path.clone(), value: scalar(p) }.applies(&f, &cx)).cloned().collect();
                 let contains: Vec<Value> = probes.iter().filter(|p| PushCondition::EventPropertyContains { key: path.clone(), value: scalar(p) }.applies(&f, &cx)).cloned().collect();
                 leaves.push(json!({
